@@ -21,7 +21,7 @@ reported as VIOLATION by the part named in the notes.
 import random
 import zlib
 
-from harness import framework
+from harness import framework, sync_paths
 from harness.framework import canon
 from harness.sync_driver import CondEventReal, NOTO
 
@@ -144,9 +144,8 @@ def run(ctx):
         L = ctx.pick(lq, lt)
         o = dict(ov)
         o["L"] = L
-        paths = ctx.gen_paths("sync", "Gen_CondEvent", "Gen_CondEvent.cfg", overrides=o)
-        ctx.replay(paths, replayer, label="s2c-" + name,
-                   nontrivial=lambda e, p: len(p) >= 2 and any(s["act"] != "advance" for s in p))
+        sync_paths.stream_replay(ctx, "Gen_CondEvent", "Gen_CondEvent.cfg", o, replayer, label="s2c-" + name,
+                                 nontrivial=lambda e, p: len(p) >= 2 and any(s["act"] != "advance" for s in p))
         rule.append("%s: all sequences <= %d over Timeouts=%s MaxAdvance=%s notify(0..%s)" % (
             name, L, ov["Timeouts"], ov["MaxAdvance"], ov["MaxNotify"]))
     ctx.cov["exhaustive"] = True
